@@ -33,7 +33,7 @@ CLAIMED = {
          "DESIGN.md 5/C12"),
 
  "C18": ("HTTPSIM", "exploration",
-         "property-based testing of the real v2 router over a recording fake backend with generated failure patterns; positional reference model of results, executed set and status; a real-engine family (persisted log == successful elements in order) and a concurrent stress family (parallel clients, per-request positional oracle; the schedule is not owned there)",
+         "property-based testing of the real v2 router over a recording fake backend with generated failure patterns (error values of every class, and the ledger panicking under an element); positional reference model of results, executed set and status; a real-engine family (persisted log == successful elements in order) and a concurrent stress family (parallel clients, per-request positional oracle; the schedule is not owned there)",
          "Generated bulk bodies (all actions, unknown actions, per-element keys, failure patterns, flag values) are served by the real router; the backend calls and the response must match a positional model derived from the property statement.",
          "Trusted: the fake backend (answers from the generated pattern); error-code expectations are limited to the mappings visible in the handler.",
          "DESIGN.md 5/C18"),
@@ -45,8 +45,8 @@ CLAIMED = {
 
  "C04": ("SQLREC", "exploration",
          "PARTIAL: metamorphic property-based testing of the SQL text per ledger name (recording driver + PostgreSQL lexer); fold-based oracles for the Go-side volume derivations and for storage.InMemoryStore",
-         "PARTIAL CLAIM. The SQL/plpgsql projection (triggers, volume functions, point-in-time reads) cannot be executed without PostgreSQL and is not covered. Covered: (a) every read method's SQL depends on the ledger name exactly through string constants, and every SELECT block (sub-selects, CTE bodies, lateral joins) that reads a ledger-scoped table restricts the ledger itself or joins on a seq key (ledger isolation); (b) Go-side volume derivations equal the fold; (c) InMemoryStore equals the fold; (d) the aggregated-balances statement built in Go (point-in-time bound, address filters, ledger predicate) evaluated over a Go model of the moves table equals the fold of that ledger's entries up to the instant; (e) transactions read back with expand=volumes / effectiveVolumes report the replay's pre- and post-commit volumes (the Go-side derivation in ExpandedTransaction.toCore), for rows the replay defines.",
-         "Trusted: bun renders arguments into the statement text; the PostgreSQL lexer; the harness fold; for (d) the harness's model of what the insert trigger writes into moves (one row per posting side, running volumes, insertion date = log date, effective date = transaction timestamp). NOT covered: 0-init-schema.sql behaviour.",
+         "PARTIAL CLAIM. The SQL/plpgsql projection (triggers, volume functions, point-in-time reads) cannot be executed without PostgreSQL and is not covered. Covered: (a) every read method's SQL depends on the ledger name exactly through string constants, and every SELECT block (sub-selects, CTE bodies, lateral joins) that reads a ledger-scoped table restricts the ledger itself or joins on a seq key (ledger isolation); (b) Go-side volume derivations equal the fold; (c) InMemoryStore equals the fold; (d) the aggregated-balances statement built in Go (point-in-time bound, address filters, ledger predicate) evaluated over a Go model of the moves table equals the fold of that ledger's entries up to the instant; (e) transactions read back with expand=volumes / effectiveVolumes report the replay's pre- and post-commit volumes (the Go-side derivation in ExpandedTransaction.toCore), for rows the replay defines; (f) the point-in-time statements for transaction and account metadata (one by id / address, or lists with and without a metadata filter, the transaction list read page by page forward and back) evaluated by the mini SQL engine over the revision rows a generated history leaves equal the replay of that history up to the instant.",
+         "Trusted: bun renders arguments into the statement text; the PostgreSQL lexer; the harness fold; for (d) the harness's model of what the insert trigger writes into moves (one row per posting side, running volumes, insertion date = log date, effective date = transaction timestamp); for (f) the harness's model of the revision rows the history triggers keep and the mini engine's reading of joins, bounds, ORDER BY, LIMIT and DISTINCT ON. NOT covered: 0-init-schema.sql behaviour.",
          "DESIGN.md 5/C04 and 6"),
  "C15": ("LOCKSIM", "exploration",
          "stateful model-based property testing of the real DefaultLocker inside a synctest bubble; generated action lists incl. cancel-at-the-moment-of-grant; invariants observed from outside",
@@ -54,7 +54,7 @@ CLAIMED = {
          "Trusted: synctest.Wait gives exact quiescence; the only delay injected is at the verifhook point lock.queued.",
          "DESIGN.md 5/C15"),
  "C20": ("SQLREC", "exploration",
-         "metamorphic property-based testing: hostile request vs benign twin of the same shape through the real routers and ledgerstore over a recording driver; PostgreSQL-lexer skeleton equality",
+         "metamorphic property-based testing: hostile request (values, metadata keys, operator names, and other spellings of the accepted filter keys) vs benign twin of the same shape through the real routers and ledgerstore over a recording driver; PostgreSQL-lexer skeleton equality",
          "Generated filter requests (all keys/operators, v1 parameters and v2 bodies) with hostile strings must either be rejected or produce SQL whose token skeleton equals that of a harmless twin.",
          "Trusted: the PostgreSQL lexer of harness/sqlrec (standard_conforming_strings=on); jsonpath/JSON content inside a string constant is not inspected.",
          "DESIGN.md 5/C20"),
@@ -81,22 +81,22 @@ CLAIMED = {
          "Trusted: model store; crash = goroutines stop at their next gate and un-inserted batches vanish; storeform emulation for the read-back recomputation.",
          "DESIGN.md 5/C05"),
  "C06": ("ENGINE-SIM", "fault_enumeration",
-         "per generated history, exhaustive enumeration of every crash position and every single InsertLogs failure (1 case in 20), plus sampled single runs with crash points, a store fault, failing reads and cancellations drawn with the plan (19 in 20); bijection oracle between success responses and persisted entries",
+         "per generated history, exhaustive enumeration of every crash position and every single InsertLogs failure (1 case in 20); per generated batch, exhaustive enumeration of every failing driver-level step (begin, prepare, row, flush, close, commit) of the real ledgerstore.Store.InsertLogs over a recording SQL driver (1 in 25); plus sampled single runs with crash points, a store fault, failing reads and cancellations drawn with the plan (19 in 20); bijection oracle between success responses and persisted entries",
          "For each generated history and schedule the check re-runs it once per scheduler step with the process dying there, and once per InsertLogs call failing: exhaustive over single crash points / single store faults of that history; histories themselves are sampled.",
          "Trusted: model store; the crash model (see DESIGN.md 4.2); attribution of entries to requests through request-chosen tags.",
          "DESIGN.md 5/C06"),
  "C07": ("ENGINE-SIM", "exploration",
-         "stateful property-based testing: duplicated keyed requests x schedules x restart x failing store reads x cancellations; invariant: <=1 entry per key, equal outcomes",
+         "stateful property-based testing: duplicated keyed requests x schedules (incl. one request held back while the others run) x restart x failing store reads x cancellations (incl. at the moment of hand-off); invariant: <=1 entry per key, equal outcomes; plus a parallel stress family (real goroutines released together on one key; the schedule is not owned there, the oracle is an invariant)",
          "Generated groups of identical keyed requests (all write kinds) are issued sequentially, racing and across a crash; at most one entry may carry the key and every success must return it.",
          "Trusted: model store; read-back of the keyed log through the storeform emulation.",
          "DESIGN.md 5/C07"),
  "C10": ("ENGINE-SIM", "exploration",
-         "stateful property-based testing: revert races and later histories; oracle: exact inversion, once-only, floor for unforced, balance restoration",
+         "stateful property-based testing: revert races (incl. one revert held back while another runs from start to finish) and later histories; oracle: exact inversion, once-only, floor for unforced, balance restoration; an HTTP family; plus a parallel stress family (real goroutines released together on one target; invariant oracle)",
          "Generated committed shapes are reverted (forced/unforced, racing, after funds moved on); every revert entry must be the exact inverse, at most one per target, never overdraw unless forced, and restore balances when untouched.",
          "Trusted: model store (reverted flag served from the harness fold; the SQL projection of the flag is outside, see C04).",
          "DESIGN.md 5/C10"),
  "C11": ("ENGINE-SIM", "exploration",
-         "stateful property-based testing: same-reference creates (incl. previews and bursts without a common account lock) x reverts of the holder x schedules x competitor outcome x faults; invariant over persisted history and error classes",
+         "stateful property-based testing: same-reference creates (incl. previews and bursts without a common account lock) x reverts of the holder x schedules x competitor outcome x faults; invariant over persisted history and error classes; plus a parallel stress family (real goroutines released together on one reference against a real Commander: the reservation has no blocking point a scheduler could own; invariant oracle)",
          "Generated groups of creates sharing a reference race each other and the persistence of competitors; at most one committed transaction per reference, refusals are CONFLICT, no spurious CONFLICT.",
          "Trusted: model store (reference lookup sees committed batches only).",
          "DESIGN.md 5/C11"),
